@@ -12,7 +12,7 @@ use refchess::{Pos, C, P};
 use serde::{Deserialize, Serialize};
 use serde_json::{json, Value};
 
-#[derive(Clone, Debug, Serialize, Deserialize)]
+#[derive(Clone, Debug, Serialize, Deserialize, PartialEq)]
 pub enum BOp {
     Place(u8, u8),
     Remove(u8),
